@@ -1885,6 +1885,10 @@ class KmipEngine(object):
                     managed_object,
                     attribute_name
                 )
+                if existing_attributes is None:
+                    # The attribute is not stored for this object, so there
+                    # is no instance to modify.
+                    existing_attributes = []
                 if 0 <= attribute_index < len(existing_attributes):
                     self._set_attribute_on_managed_object_by_index(
                         managed_object,
